@@ -530,3 +530,41 @@ func SwapNodes(t *rapid.T, v any) any {
 	}
 	return cp
 }
+
+// StretchNumber returns a deep copy of v in which one integral number is replaced by a
+// value just outside the int32 / int64 ranges (ok=false: v holds no integral number).
+func StretchNumber(t *rapid.T, v any) (any, bool) {
+	cp := deepCopyJSON(v)
+	var sets []func(any)
+	var walk func(node any, set func(any))
+	walk = func(node any, set func(any)) {
+		switch x := node.(type) {
+		case map[string]any:
+			keys := make([]string, 0, len(x))
+			for k := range x {
+				keys = append(keys, k)
+			}
+			sort.Strings(keys)
+			for _, k := range keys {
+				k := k
+				walk(x[k], func(nv any) { x[k] = nv })
+			}
+		case []any:
+			for i := range x {
+				i := i
+				walk(x[i], func(nv any) { x[i] = nv })
+			}
+		case json.Number:
+			if set != nil && !strings.ContainsAny(x.String(), ".eE") {
+				sets = append(sets, set)
+			}
+		}
+	}
+	walk(cp, nil)
+	if len(sets) == 0 {
+		return cp, false
+	}
+	tok := rapid.SampledFrom([]string{"2147483648", "-2147483649", "4294967297", "2147483647", "-2147483648", "9223372036854775808", "-9223372036854775809", "18446744073709551616", "32768", "128", "-129"}).Draw(t, "stretched")
+	sets[rapid.IntRange(0, len(sets)-1).Draw(t, "stretch_at")](json.Number(tok))
+	return cp, true
+}
